@@ -91,7 +91,30 @@ fn slice_bounds(len: usize, o: u16, l: u16) -> (usize, usize) {
     (o, l)
 }
 
+fn lane_vec() -> impl Strategy<Value = Vec<u8>> {
+    let lane = prop_oneof![
+        4 => prop::sample::select(vec![i64::MIN, i64::MAX, i64::MIN + 1, i32::MIN as i64, i32::MAX as i64, -1, 0, 1, 1 << 31, 1 << 32, -(1 << 31) - 1]),
+        1 => any::<i64>(),
+        1 => -100i64..100,
+    ];
+    (prop::sample::select(vec![4usize, 8]), prop::collection::vec(lane, 0..6)).prop_map(|(w, lanes)| {
+        let mut out = Vec::new();
+        for l in lanes {
+            if w == 4 {
+                out.extend_from_slice(&(l as i32).to_le_bytes());
+            } else {
+                out.extend_from_slice(&l.to_le_bytes());
+            }
+        }
+        out
+    })
+}
+
 fn byte_vec() -> impl Strategy<Value = Vec<u8>> {
+    prop_oneof![3 => raw_byte_vec(), 1 => lane_vec()]
+}
+
+fn raw_byte_vec() -> impl Strategy<Value = Vec<u8>> {
     let len = prop_oneof![
         4 => 0usize..=2,
         6 => prop::sample::select(vec![3usize, 4, 7, 8, 9, 12, 15, 16, 17, 24]),
@@ -193,7 +216,27 @@ pub fn spec_strategy(spec: &TypeSpec, allow_big: bool) -> BoxedStrategy<ArgG> {
                 return Just(ArgG::Nil).boxed();
             }
             let parts: Vec<BoxedStrategy<ArgG>> = fields.iter().map(|(_, s)| spec_strategy(s, allow_big)).collect();
-            parts.prop_map(ArgG::Tuple).boxed()
+            // With probability ~0.25 every later binary argument is the same binary as the first one
+            // (the same value passed twice; also makes equal-length vector operands common).
+            (parts, any::<u8>())
+                .prop_map(|(mut v, tie)| {
+                    if tie < 64 {
+                        let first = v.iter().find_map(|a| if let ArgG::Bin(r) = a { Some(r.clone()) } else { None });
+                        if let Some(f) = first {
+                            let mut seen = false;
+                            for a in v.iter_mut() {
+                                if let ArgG::Bin(_) = a {
+                                    if seen {
+                                        *a = ArgG::Bin(f.clone());
+                                    }
+                                    seen = true;
+                                }
+                            }
+                        }
+                    }
+                    ArgG::Tuple(v)
+                })
+                .boxed()
         }
         TypeSpec::Union(v) => {
             let parts: Vec<BoxedStrategy<ArgG>> = v.iter().map(|s| spec_strategy(s, allow_big)).collect();
@@ -1015,6 +1058,9 @@ pub fn run(ctx: &Ctx) -> i32 {
                 };
                 stats.class(class);
                 stats.class(&format!("builtin:{name}"));
+                if matches!(m, Model::Val(_)) {
+                    stats.class(&format!("value:{name}"));
+                }
                 if has_rope(g) {
                     stats.class("rope:non-owned");
                 }
